@@ -293,7 +293,8 @@ pub(crate) struct ChoppyReader<'a> {
 impl<'a> Read for ChoppyReader<'a> {
     fn read(&mut self, buf: &mut [u8]) -> io::Result<usize> {
         self.calls += 1;
-        if self.interrupt_every > 0 && self.calls % self.interrupt_every == 0 {
+        // interrupt_every = k > 0: the k-th call (only) reports Interrupted before delivering anything
+        if self.interrupt_every > 0 && self.calls == self.interrupt_every {
             return Err(io::Error::from(io::ErrorKind::Interrupted));
         }
         let left = self.data.len() - self.pos;
@@ -301,11 +302,7 @@ impl<'a> Read for ChoppyReader<'a> {
         if n > self.max {
             n = self.max;
         }
-        let mut i = 0;
-        while i < n {
-            buf[i] = self.data[self.pos + i];
-            i += 1;
-        }
+        buf[..n].copy_from_slice(&self.data[self.pos..self.pos + n]);
         self.pos += n;
         Ok(n)
     }
@@ -323,19 +320,17 @@ impl<'a> Read for LimitReader<'a> {
     fn read(&mut self, buf: &mut [u8]) -> io::Result<usize> {
         let left = self.data.len() - self.pos;
         let n = if buf.len() < left { buf.len() } else { left };
-        if self.pos + n > self.limit {
-            // (a real cut file would still deliver the bytes before the cut; read_exact fails either way)
+        // position and buffer are updated unconditionally so that they stay concrete after the (symbolic) decision
+        // below; once the limit is crossed the caller stops reading, so this is unobservable
+        let start = self.pos;
+        buf[..n].copy_from_slice(&self.data[start..start + n]);
+        self.pos = start + n;
+        if start + n > self.limit {
             return match self.fault {
                 None => Ok(0),
                 Some(k) => Err(io::Error::from(k)),
             };
         }
-        let mut i = 0;
-        while i < n {
-            buf[i] = self.data[self.pos + i];
-            i += 1;
-        }
-        self.pos += n;
         Ok(n)
     }
 }
@@ -445,6 +440,49 @@ pub(crate) fn note_reservation(elems: usize, elem_size: usize) {
 pub(crate) fn recording_with_capacity<T>(capacity: usize) -> Vec<T> {
     note_reservation(capacity, core::mem::size_of::<T>());
     Vec::new()
+}
+pub(crate) static mut C12_INPUT_LEN: usize = 0;
+/// non-generic, so that there is one vacuity witness for all instantiations of the recorder
+fn reservation_site_reached() {
+    kani::cover!(true, "a reservation site is reached");
+}
+/// C12 recorder that checks the bound at the reservation itself and ends the path there (what follows a declared-size
+/// reservation is a read of symbolic length, which symbolic execution cannot carry: R10)
+pub(crate) fn checking_with_capacity<T>(capacity: usize) -> Vec<T> {
+    let bytes = capacity as u128 * core::mem::size_of::<T>() as u128;
+    let bound = reservation_bound(unsafe { C12_INPUT_LEN });
+    reservation_site_reached();
+    assert!(bytes <= bound, "single reservation <= 64 MiB + 8192 * input bytes");
+    kani::assume(false);
+    Vec::new()
+}
+/// like checking_with_capacity, but the path continues with an empty vector when the request is within the bound
+/// (for call sites whose capacity does not depend on a declared size on the unchanged tree)
+pub(crate) fn checking_with_capacity_nostop<T>(capacity: usize) -> Vec<T> {
+    let bytes = capacity as u128 * core::mem::size_of::<T>() as u128;
+    let bound = reservation_bound(unsafe { C12_INPUT_LEN });
+    if bytes > bound {
+        assert!(false, "single reservation <= 64 MiB + 8192 * input bytes");
+        kani::assume(false);
+    }
+    Vec::new()
+}
+/// `vec![elem; n]`: checks the bound; a request above it ends the path as a failure, a request within it is served
+/// (n is concrete on the unchanged tree at the sites these harnesses reach)
+pub(crate) fn checking_from_elem<T: Clone>(elem: T, n: usize) -> Vec<T> {
+    let bytes = n as u128 * core::mem::size_of::<T>() as u128;
+    let bound = reservation_bound(unsafe { C12_INPUT_LEN });
+    if bytes > bound {
+        assert!(false, "single zero-filled reservation <= 64 MiB + 8192 * input bytes");
+        kani::assume(false);
+    }
+    let mut v = Vec::new();
+    let mut i = 0;
+    while i < n {
+        v.push(elem.clone());
+        i += 1;
+    }
+    v
 }
 pub(crate) fn max_reservation() -> u128 {
     unsafe { MAX_RESERVATION }
